@@ -257,7 +257,10 @@ class Run:
             with open(path, "w") as f:
                 json.dump({"property": self.pid, "key": key, "what": v["what"], "count": v["count"],
                            "data": v["data"]}, f, indent=1, default=str)
-            print(f"VIOLATION property={self.pid} replay={path}")
+            if self.pid.startswith("G"):   # growth specs: outside the listed properties, never a property alarm
+                print(f"DEVIATION growth-spec={self.pid} replay={path}")
+            else:
+                print(f"VIOLATION property={self.pid} replay={path}")
             print(f"  key={key} :: {v['what']} (x{v['count']})")
         cov = dict(self.cov)
         cov["states"] = sum(t["distinct"] for t in self.tlc)
@@ -276,6 +279,8 @@ class Run:
               "coverage": cov, "assumptions": self.assumptions,
               "wall_s": round(time.time() - self.t0, 2), "violations": len(new)}
         evdir = EVID if not os.environ.get("VERIF_NO_EVIDENCE") else os.path.join(self.workdir, "evidence")
+        if self.pid.startswith("G") and evdir == EVID:
+            evdir = os.path.join(os.path.dirname(EVID), "evidence_growth")
         os.makedirs(evdir, exist_ok=True)
         with open(os.path.join(evdir, f"{self.pid}.json"), "w") as f:
             json.dump(ev, f, indent=1, default=str)
